@@ -6,7 +6,6 @@ package storage
 import (
 	"context"
 	"errors"
-	"sync"
 	"time"
 
 	"github.com/go-jose/go-jose/v3"
@@ -60,20 +59,20 @@ type MemoryStore struct {
 	IssuerPublicKeys map[string]IssuerPublicKeys
 	PARSessions      map[string]fosite.AuthorizeRequester
 
-	clientsMutex                sync.RWMutex
-	authorizeCodesMutex         sync.RWMutex
-	idSessionsMutex             sync.RWMutex
-	accessTokensMutex           sync.RWMutex
-	refreshTokensMutex          sync.RWMutex
-	deviceAuthsMutex            sync.RWMutex
-	pkcesMutex                  sync.RWMutex
-	usersMutex                  sync.RWMutex
-	blacklistedJTIsMutex        sync.RWMutex
-	accessTokenRequestIDsMutex  sync.RWMutex
-	refreshTokenRequestIDsMutex sync.RWMutex
-	deviceAuthsRequestIDsMutex  sync.RWMutex
-	issuerPublicKeysMutex       sync.RWMutex
-	parSessionsMutex            sync.RWMutex
+	clientsMutex                storeMutex
+	authorizeCodesMutex         storeMutex
+	idSessionsMutex             storeMutex
+	accessTokensMutex           storeMutex
+	refreshTokensMutex          storeMutex
+	deviceAuthsMutex            storeMutex
+	pkcesMutex                  storeMutex
+	usersMutex                  storeMutex
+	blacklistedJTIsMutex        storeMutex
+	accessTokenRequestIDsMutex  storeMutex
+	refreshTokenRequestIDsMutex storeMutex
+	deviceAuthsRequestIDsMutex  storeMutex
+	issuerPublicKeysMutex       storeMutex
+	parSessionsMutex            storeMutex
 }
 
 func NewMemoryStore() *MemoryStore {
